@@ -45,7 +45,7 @@ func ProfileFor(id, tier string) *Profile {
 		p.TinyStakes = 0.4
 	case "C02":
 		p.BigGaps = 0.04
-		p.LongFrac = 0.08 // EndBlock paths that only run when several deposit rounds close in one block
+		p.LongFrac = 0.15 // EndBlock paths that only run when several deposit rounds close in one block
 		bump(map[string]int{"gov_proposal": 3, "gov_vote": 12, "propose_dispute": 8, "vote": 10, "tie_vote": 8})
 	case "C03":
 		bump(map[string]int{"gov_proposal": 3, "gov_vote": 12, "tip": 25, "withdraw_tokens": 6, "claim_deposits": 5})
